@@ -10,3 +10,6 @@ import OmplModel.Props.C03
 #print axioms OmplModel.Props.C03.alloc_balanced
 #print axioms OmplModel.Props.C03.alloc_balanced_after_clear
 #print axioms OmplModel.Props.C03.rrt_core_lawful
+#print axioms OmplModel.Props.C03.crrt_core_lawful
+#print axioms OmplModel.Props.C03.alloc_balanced_control
+#print axioms OmplModel.Props.C03.alloc_balanced_control_after_clear
